@@ -121,9 +121,10 @@ Qed.
 Definition plan_fresh (s : vstate) (p : plan) : Prop :=
   vals s !! pl_op p = None ∧ idx s !! pl_key p = None.
 
-Lemma plan_good c s e p :
-  mid_inv (vs s) e → plan_fresh (vs s) p →
-  (N.of_nat (size (vals (vs s))) + 1 ≤ p_maxv (prm s))%N →
+(* the outcome of a plan, from what ChangeExecutor's validator part leaves behind *)
+Lemma plan_outcome c s e p :
+  mid_inv (change_executor_vals (vs s) (pl_op p) (pl_key p)) e →
+  (N.of_nat (size (vals (change_executor_vals (vs s) (pl_op p) (pl_key p)))) ≤ p_maxv (prm s))%N →
   params_valid c (prm s) = true → Forall (λ x, is_Some (resolve c x)) (pl_execs p) →
   ∃ s' ups,
     end_block c s (Some p) = Some (s', ups) ∧
@@ -139,13 +140,8 @@ Lemma plan_good c s e p :
     p_hookgas (prm s') = p_hookgas (prm s) ∧
     bk s' = bk s ∧ next_l1 s' = next_l1 s ∧ next_l2 s' = next_l2 s ∧ pairs s' = pairs s ∧ info s' = info s.
 Proof.
-  intros Hmid (Hop & Hkey) Hcap Hpv Hex.
-  pose proof (change_executor_vals_mid _ _ _ _ Hmid Hop Hkey) as Hmid1.
+  intros Hmid1 Hsz Hpv Hex.
   set (s1v := change_executor_vals (vs s) (pl_op p) (pl_key p)) in *.
-  assert (size (vals s1v) = S (size (vals (vs s)))) as Hsz.
-  { unfold s1v, change_executor_vals. simpl. rewrite map_size_insert_None.
-    - by rewrite map_size_fmap.
-    - by rewrite lookup_fmap, Hop. }
   assert (vals s1v !! pl_op p = Some {| v_key := pl_key p; v_pow := 1 |}) as Hs1a.
   { unfold s1v, change_executor_vals. simpl. by rewrite lookup_insert. }
   assert (∀ o, o ≠ pl_op p → vals s1v !! o = (λ v, {| v_key := v_key v; v_pow := 0 |}) <$> vals (vs s) !! o) as Hs1b.
@@ -195,6 +191,93 @@ Proof.
     - intros Hk. apply lookup_singleton_Some in Hk as (<- & <-). eexists. rewrite lookup_singleton. done. }
   split; [done|]. split; [done|]. split; [by rewrite <- He'|]. done.
 Qed.
+
+Lemma plan_good c s e p :
+  mid_inv (vs s) e → plan_fresh (vs s) p →
+  (N.of_nat (size (vals (vs s))) + 1 ≤ p_maxv (prm s))%N →
+  params_valid c (prm s) = true → Forall (λ x, is_Some (resolve c x)) (pl_execs p) →
+  ∃ s' ups,
+    end_block c s (Some p) = Some (s', ups) ∧
+    batch_wellformed e ups ∧
+    engine_apply e ups = Some ({[pl_key p := 1%Z]} : gmap N Z) ∧
+    vals (vs s') = {[pl_op p := {| v_key := pl_key p; v_pow := 1 |}]} ∧
+    idx (vs s') = {[pl_key p := pl_op p]} ∧
+    last (vs s') = {[pl_op p := 1%Z]} ∧
+    blk_inv (vs s') ({[pl_key p := 1%Z]} : gmap N Z) ∧
+    p_execs (prm s') = pl_execs p ∧
+    p_admin (prm s') = p_admin (prm s) ∧ p_maxv (prm s') = p_maxv (prm s) ∧ p_hist (prm s') = p_hist (prm s) ∧
+    p_mingas (prm s') = p_mingas (prm s) ∧ p_whitelist (prm s') = p_whitelist (prm s) ∧
+    p_hookgas (prm s') = p_hookgas (prm s) ∧
+    bk s' = bk s ∧ next_l1 s' = next_l1 s ∧ next_l2 s' = next_l2 s ∧ pairs s' = pairs s ∧ info s' = info s.
+Proof.
+  intros Hmid (Hop & Hkey) Hcap Hpv Hex. apply plan_outcome; try done.
+  - by apply change_executor_vals_mid.
+  - unfold change_executor_vals. simpl. rewrite map_size_insert_None.
+    + rewrite map_size_fmap. lia.
+    + by rewrite lookup_fmap, Hop.
+Qed.
+
+(* the plan names an existing validator with its own key: keep the sequencer, drop the others *)
+Definition plan_same (s : vstate) (p : plan) : Prop :=
+  ∃ v, vals s !! pl_op p = Some v ∧ v_key v = pl_key p.
+
+Lemma change_executor_vals_same_mid s e op key :
+  mid_inv s e → (∃ v, vals s !! op = Some v ∧ v_key v = key) →
+  mid_inv (change_executor_vals s op key) e.
+Proof.
+  intros (Hi & (He1 & He2) & Hp) (v0 & Hv0 & Hk0).
+  assert (idx s !! key = Some op) as Hidx by (apply Hi; eauto).
+  (* the keys of all records are unchanged *)
+  assert (∀ o k, (∃ v, vals (change_executor_vals s op key) !! o = Some v ∧ v_key v = k) ↔
+                 (∃ v, vals s !! o = Some v ∧ v_key v = k)) as Hkeys.
+  { intros o k. unfold change_executor_vals. simpl. destruct (decide (o = op)) as [->|Hne].
+    - rewrite lookup_insert. split.
+      + intros (v & [= <-] & <-). simpl. eauto.
+      + intros (v & Hv & <-). assert (v = v0) by congruence. subst. eexists. split; [done|]. done.
+    - rewrite lookup_insert_ne by congruence. rewrite lookup_fmap. split.
+      + intros (v & Hv & <-). destruct (vals s !! o) as [w|]; simpl in Hv; [|done]. simplify_eq. simpl. eauto.
+      + intros (v & Hv & <-). rewrite Hv. simpl. eexists. split; [done|]. done. }
+  split; [|split].
+  - intros k o. rewrite Hkeys. unfold change_executor_vals. simpl.
+    destruct (decide (k = key)) as [->|Hne].
+    + rewrite lookup_insert. rewrite <- (Hi key o). rewrite Hidx. done.
+    + rewrite lookup_insert_ne by congruence. apply Hi.
+  - split.
+    + intros o q Hl. unfold change_executor_vals in Hl. simpl in Hl. destruct (He1 _ _ Hl) as (v & Hv & Hev).
+      destruct (proj2 (Hkeys o (v_key v))) as (v' & Hv' & Hk'); [eauto|]. exists v'. rewrite Hk'. done.
+    + intros k q Hk. destruct (He2 _ _ Hk) as (o & v & Hl & Hv & Hkv).
+      destruct (proj2 (Hkeys o k)) as (v' & Hv' & Hk'); [eauto|]. exists o, v'. done.
+  - intros o v. unfold change_executor_vals. simpl. destruct (decide (o = op)) as [->|Hne].
+    + rewrite lookup_insert. intros [= <-]. simpl. lia.
+    + rewrite lookup_insert_ne by congruence. rewrite lookup_fmap.
+      destruct (vals s !! o); simpl; [|done]. intros [= <-]. simpl. lia.
+Qed.
+
+Lemma plan_same_validator c s e p :
+  mid_inv (vs s) e → plan_same (vs s) p →
+  (N.of_nat (size (vals (vs s))) ≤ p_maxv (prm s))%N →
+  params_valid c (prm s) = true → Forall (λ x, is_Some (resolve c x)) (pl_execs p) →
+  ∃ s' ups,
+    end_block c s (Some p) = Some (s', ups) ∧
+    batch_wellformed e ups ∧
+    engine_apply e ups = Some ({[pl_key p := 1%Z]} : gmap N Z) ∧
+    vals (vs s') = {[pl_op p := {| v_key := pl_key p; v_pow := 1 |}]} ∧
+    idx (vs s') = {[pl_key p := pl_op p]} ∧
+    last (vs s') = {[pl_op p := 1%Z]} ∧
+    blk_inv (vs s') ({[pl_key p := 1%Z]} : gmap N Z) ∧
+    p_execs (prm s') = pl_execs p ∧
+    p_admin (prm s') = p_admin (prm s) ∧ p_maxv (prm s') = p_maxv (prm s) ∧ p_hist (prm s') = p_hist (prm s) ∧
+    p_mingas (prm s') = p_mingas (prm s) ∧ p_whitelist (prm s') = p_whitelist (prm s) ∧
+    p_hookgas (prm s') = p_hookgas (prm s) ∧
+    bk s' = bk s ∧ next_l1 s' = next_l1 s ∧ next_l2 s' = next_l2 s ∧ pairs s' = pairs s ∧ info s' = info s.
+Proof.
+  intros Hmid Hsame Hcap Hpv Hex. apply plan_outcome; try done.
+  - by apply change_executor_vals_same_mid.
+  - destruct Hsame as (v & Hv & _). unfold change_executor_vals. simpl. rewrite map_size_insert_Some.
+    + rewrite map_size_fmap. done.
+    + rewrite lookup_fmap, Hv. simpl. eauto.
+Qed.
+
 
 (* ---- the three known findings, as computed witnesses on states reached from a genesis ---- *)
 Definition wit_cfg : cfg :=
@@ -276,3 +359,15 @@ Example plan_good_applies :
     end_block wit_cfg (wit_l2 (wit_gen 3) st0) (Some {| pl_op := 2; pl_key := 2; pl_execs := [[7%N]] |}) = Some (s', ups) ∧
     ups = [(2%N, 1%Z); (1%N, 0%Z)] ∧ p_execs (prm s') = [[7%N]].
 Proof. eexists _, _, _, _. split; [vm_compute; reflexivity|]. split; [vm_compute; reflexivity|]. split; reflexivity. Qed.
+
+(* non-vacuity of plan_same_validator: the validator of the reached state is kept, at the cap *)
+Example plan_same_applies :
+  ∃ st0 ups0 s' ups, genesis_chain (wit_gen 1) 0 = Some (st0, ups0) ∧
+    plan_same (vs (wit_l2 (wit_gen 1) st0)) {| pl_op := 1; pl_key := 1; pl_execs := [[7%N]] |} ∧
+    end_block wit_cfg (wit_l2 (wit_gen 1) st0) (Some {| pl_op := 1; pl_key := 1; pl_execs := [[7%N]] |}) = Some (s', ups) ∧
+    ups = [] ∧ p_execs (prm s') = [[7%N]] ∧ idx (vs s') !! 1%N = Some 1%N.
+Proof.
+  eexists _, _, _, _. split; [vm_compute; reflexivity|]. split.
+  { eexists. split; [vm_compute; reflexivity|reflexivity]. }
+  split; [vm_compute; reflexivity|]. split; [reflexivity|]. split; [reflexivity|]. vm_compute; reflexivity.
+Qed.
